@@ -83,6 +83,23 @@ def scripts_for(tier, rng):
         out.append(mk("b%05d" % k, mode, "long", rng.random() < 0.5, rng.choice([30, 50]), 30, rng.choice([30, 80]),
                       None, [kid(self_at=20)] * 8, steps, "delay-run"))
         k += 1
+    # --delay-run while the command is busy: the query is made a delay after the batch, behind the sleeps of
+    # the batches before it, and acts on what it finds then.  Only the trace specification judges these.
+    for _ in range(n // 2):
+        mode = rng.choice(modes)
+        steps, t = [], 0
+        for _ in range(rng.randrange(2, 7)):
+            t += rng.choice([0, 10, 30, 50, 60, 100, 150, 300])
+            steps.append(dict(at=t, ev=rng.choice(["change", "change", "change", "empty"])))
+        if rng.random() < 0.3:
+            steps.append(dict(at=t + rng.choice([0, 50, 500]), ev=rng.choice(["INT", "TERM"])))
+        sc = mk("b%05d" % k, mode, rng.choice(["long", "short"]), rng.random() < 0.3, rng.choice([0, 30, 50]),
+                rng.choice([0, 30, 100]), rng.choice([20, 30, 80, 200]),
+                rng.choice([None, None, "INT", "USR1"]) if mode in ("restart", "signal") else None,
+                [rng.choice(KIDS) for _ in range(8)], steps, "delay-run-busy")
+        sc["judge"] = "trace"
+        out.append(sc)
+        k += 1
     return out
 
 
@@ -99,7 +116,7 @@ def run(prop, tier, replay=None):
     if mc["violated"]:
         path = vlib.save_replay(prop, "model_" + mc["violated"], dict(kind="model", invariant=mc["violated"], tlc_tail=mc["out"][-6000:]))
         violations.append(("model invariant %s violated" % mc["violated"], path))
-    e2e_only = None
+    e2e_only = beh_only = None
     if replay:
         with open(replay) as f:
             rp = json.load(f)
@@ -107,6 +124,8 @@ def run(prop, tier, replay=None):
             e2e_only, scripts = rp["script"], []
         elif rp.get("kind") == "model":
             scripts = []
+        elif rp.get("kind") == "spec-behaviour":
+            beh_only, scripts = rp["behaviour"], []
         else:
             scripts = [rp["script"]]
     else:
@@ -121,7 +140,28 @@ def run(prop, tier, replay=None):
                        stdout=subprocess.PIPE, stderr=subprocess.DEVNULL, text=True, timeout=3600)
     if p.returncode != 0:
         raise vlib.ToolError("cli_driver failed")
-    acc, rej, stats, total = vlib.validate_traces("CliMon.tla", "CliMon.cfg", tp, "val_C05", shards=12)
+    # the monitor judges every script but those only the trace specification can (see scripts_for)
+    with open(tp) as f:
+        allscen = vlib.split_scenarios(f.readlines())
+    mp = os.path.join(d, "traces_mon.ndjson")
+    with open(mp, "w") as f:
+        for sc in allscen:
+            if (by_id.get(json.loads(sc[0])["a"]) or {}).get("judge") != "trace":
+                f.write("".join(sc))
+    acc, rej, stats, total = vlib.validate_traces("CliMon.tla", "CliMon.cfg", mp, "val_C05", shards=12)
+    # is every run a behaviour of CliBusy.tla?
+    tacc, trej, tstats, ttotal = vlib.validate_traces("CliTrace.tla", "CliTrace.cfg", tp, "val_C05_trace", shards=12)
+    stats["distinct"] += tstats["distinct"]
+    stats["generated"] += tstats["generated"]
+    acc += tacc
+    total += ttotal
+    for r in trej:
+        sid = r["script"] or ""
+        why = "trace is not a behaviour of CliBusy"
+        path = vlib.save_replay(prop, "%s_%s" % (sid, vlib.digest(r["event"])), dict(
+            kind="trace", property=prop, script=by_id.get(sid), rejected_at_line=r["line"], event=r["event"], why=why,
+            trace=[json.loads(x) for x in r["lines"]]))
+        violations.append(("%s (%s): %s at line %d (%s)" % (sid, (by_id.get(sid) or {}).get("mode"), why, r["line"], r["event"]["e"]), path))
     for r in rej:
         sid = r["script"] or ""
         path = vlib.save_replay(prop, "%s_%s" % (sid, vlib.digest(r["event"])), dict(
@@ -130,16 +170,25 @@ def run(prop, tier, replay=None):
         violations.append(("%s (%s): %s at line %d (%s)" % (sid, (by_id.get(sid) or {}).get("mode"),
                                                            r.get("why") or ("monitor invariant %s violated" % r.get("invariant") if r.get("invariant") else "malformed trace"), r["line"], r["event"]["e"]), path))
     extra = {}
+    if beh_only or not replay:
+        # the other direction: behaviours of CliBusy.tla replayed on the real action logic
+        import clireplay
+        rviol, rextra = clireplay.run(prop, tier, rng, only=beh_only)
+        violations += rviol
+        extra.update(rextra)
+        acc += rextra["spec_behaviours_agreed"]
+        total += rextra["spec_behaviours_replayed"]
     if e2e_only or not replay:
         # the command-line program itself (its own run(): the initial event unless --postpone, the real
         # watcher, a real command), end to end
         import clie2echeck
-        eviol, extra, estats = clie2echeck.run(prop, tier, rng, only=e2e_only)
+        eviol, eextra, estats = clie2echeck.run(prop, tier, rng, only=e2e_only)
+        extra.update(eextra)
         violations += eviol
         stats["distinct"] += estats["distinct"]
         stats["generated"] += estats["generated"]
-        acc += extra["end_to_end_accepted"]
-        total += extra["end_to_end_scripts"]
+        acc += eextra["end_to_end_accepted"]
+        total += eextra["end_to_end_scripts"]
     with open(tp) as f:
         scen = vlib.split_scenarios(f.readlines())
     distinct = {vlib.digest({k: v for k, v in s.items() if k not in ("id", "origin")}) for s in scripts if nontrivial(s)}
@@ -152,11 +201,12 @@ def run(prop, tier, replay=None):
         traces_validated_against_impl=acc, evaluations=total, distinct_nontrivial=len(distinct),
         rule="scripts with a first run at start-up or at least two change bursts; distinct by (argv, child behaviours, change times)",
         exhaustive=False, samples=samples,
-        checker_cmd="tlc CliBusy.tla -config CliBusy_%s.cfg ; cli_driver ; tlc CliMon.tla -config CliMon.cfg (per shard)" % tier,
+        checker_cmd="tlc CliBusy.tla -config CliBusy_%s.cfg ; cli_driver ; tlc CliMon.tla -config CliMon.cfg (per shard) ; tlc CliTrace.tla -config CliTrace.cfg (per shard) ; tlc -simulate MC_CliReplay.tla ; cli_driver ; observations compared" % tier,
         script_families=sorted({s.get("origin", "?") for s in scripts}), **extra)
     assumptions = [
         "the CLI's make_config is built from a real argv (so -r / --signal shorthands go through the CLI's normalisation) and runs on a real Watchexec; the spawned command is a simulated child (cfg(watchexec_verif) spawn interceptor), time is tokio's paused clock",
         "changes are synthetic filesystem events sent with send_event; the start-up event is sent as run_watchexec() does (virtual tier); the end-to-end tier runs the CLI's own run() with a real watcher and a real command in real time and demands only what does not depend on exact timing (a script is held against the code only when rejected three times in a row)",
+        "spec-to-code direction: behaviours of CliBusy.tla in which the environment makes a change only at an instant at which nothing else happens; behaviours the specification marks racy (two timers of one instant, a control arriving in the instant the command ends) are not replayed",
         "queue mode: the waiter task's wake-up latency is smaller than the debounce delay (single-threaded runtime); the multi-threaded race is documented in DESIGN.md and not checked",
     ]
     vlib.write_evidence(prop, tier, coverage, time.time() - t0, len(violations), assumptions)
